@@ -26,6 +26,7 @@ import Driver.EnvDrive
 import Driver.ShapeDrive
 import Driver.MomDrive
 import Driver.FloatDrive
+import Driver.AgentDrive
 import Std.Data.HashMap
 import Std.Data.HashSet
 
@@ -365,6 +366,8 @@ partial def loop (inp out : IO.FS.Stream) (st : St) : IO St := do
     | some eh =>
       let opLine := "_".intercalate rest
       if eh.kind == "sim" then loop inp out st
+      else if eh.fagent.isSome && (rest.head? == some "update" || rest.head? == some "xstep") then
+        loop inp out { st with ehist := some { eh with pendingX := some rest } }
       else if eh.kind == "market" then
         match parseMOp rest with
         | some op => loop inp out { st with ehist := some { eh with pendingM := some (op, opLine) } }
@@ -384,7 +387,15 @@ partial def loop (inp out : IO.FS.Stream) (st : St) : IO St := do
   | "I" :: rest =>
     match st.ehist with
     | some eh =>
-      let (eh', lines, tags) := handleEnvObs eh rest
+      let (eh', lines, tags) :=
+        match eh.pendingX, eh.fagent, parseEnvLine true rest with
+        | some toks, some ag, some ln =>
+          let o := handleAgentOp eh.id eh.opIdx eh.ticks eh.nLevels ag eh.env eh.rng eh.kDead eh.prevB eh.prevE toks ln
+          ({ eh with fagent := some o.st, env := o.env, rng := o.rng, kDead := o.kDead, prevB := ln.books, prevE := ln.envs,
+                     opIdx := eh.opIdx + 1, pendingX := none,
+                     nSteps := eh.nSteps + (if toks.head? == some "xstep" then 1 else 0) }, o.lines, o.tags)
+        | some _, _, _ => ({ eh with pendingX := none, kDead := true }, [s!"BAD agent observation {eh.id} {eh.opIdx}"], [])
+        | none, _, _ => handleEnvObs eh rest
       for l in lines do emit out l
       let mut stats := st.stats
       for t in tags do stats := bump stats t
